@@ -251,6 +251,20 @@ def generate_C13(rng, tier):
         for cap in caps:
             yield "rle_cap %s 0 %d" % (segs(tr), cap)
             yield "rle_cap %s 1 %d" % (segs(tr), cap)
+    # hostile run streams for varintRLEDecode: run lengths near 2^64 (wrapping sums), declared
+    # total >= cap so that the decoder stops inside the given bytes
+    for (runs, cap) in [([(5, 7), (U64 - 2, 9)], 8), ([(U64, 1)], 3), ([(1, 4), (U64, 5)], 2),
+                        ([(3, 1), ((1 << 63), 2), ((1 << 63), 3)], 10), ([(2, 8), (U64 - 1, 9)], 2),
+                        ([(7, 7), (U64 - 6, 1)], 7), ([(7, 7), (U64 - 6, 1)], 8), ([((1 << 64) - 8, 3)], 8)]:
+        yield "rle_hostile %s %d" % (hexs(sum((tput(l) + tput(v) for (l, v) in runs), [])), cap)
+    for _ in range(40 if quick else 400):
+        cap = rng.randint(1, 12)
+        runs, tot = [], 0
+        while tot < cap:
+            l = rng.choice([1, 2, 3, U64, U64 - rng.randint(0, 12), (1 << 63) + rng.randint(0, 3), 1 << 32])
+            runs.append((l, rng.choice([0, 1, 300, U64])))
+            tot += l
+        yield "rle_hostile %s %d" % (hexs(sum((tput(l) + tput(v) for (l, v) in runs), [])), cap)
     for tr in dict_arrays(rng, tier, 120 if quick else 3000):
         n = sum(c for (c, _, _) in tr)
         if n > 5000:
@@ -445,6 +459,15 @@ def o_rle_cap(args, c):
     return None
 
 
+def o_rle_hostile(args, c):
+    if _fault(c):
+        return _fault(c)
+    cap = int(args[1])
+    if c["guard"] != "ok" or int(c["touched"]) > cap or int(c["ret"]) > cap:
+        return "varintRLEDecode wrote/returned beyond capacity %d: ret=%s guard=%s" % (cap, c["ret"], c["guard"])
+    return None
+
+
 def o_dict_cap(args, c):
     if _fault(c):
         return _fault(c)
@@ -528,6 +551,8 @@ def classify(case, m):
         return "%s-w%s" % (api, m.get("dw", "?")) if api == "dict_enc" else "dict_cap"
     if api == "dict_with":
         return "dict_with-" + ("miss" if m.get("n") == "0" else "ok")
+    if api == "rle_hostile":
+        return "rle_hostile"
     if api == "rle_rc":
         return "rle_rc-%s" % ("empty" if t[1] == "x" else "runs" if m.get("rc", "0") != "0" else "norun")
     if api == "dict_dec":
@@ -577,8 +602,8 @@ PARTS = {
     "C13": dict(coq_props=["Properties_C13_rledict"], files=FILES,
                 rule="valid encodings of the C02 arrays x capacities 0..count (all capacities for short arrays; 0, 1, "
                      "run boundaries +-1, count-1, count for long ones), output array of exactly cap elements inside "
-                     "canaries; non-trivial = count >= 1",
-                generate=generate_C13, oracles={"rle_cap": o_rle_cap, "dict_cap": o_dict_cap},
+                     "canaries; hostile run streams with lengths near 2^64 for varintRLEDecode; non-trivial = count >= 1",
+                generate=generate_C13, oracles={"rle_cap": o_rle_cap, "dict_cap": o_dict_cap, "rle_hostile": o_rle_hostile},
                 classify=classify, search=search, assumptions=ASSUME, trusted_base=TRUST,
                 configs_quick=["pinned", "O0"]),
     "C14": dict(coq_props=["Properties_C14_rledict"], files=FILES,
